@@ -520,7 +520,7 @@ func run(t *testing.T, plan any, keep bool) *simcheck.Outcome {
 var harness = &simcheck.Harness{
 	Property: "C12",
 	Level:    "fault_enumeration",
-	Rule: "a scenario shape (0-3 prior Puts, target id/content, optional pre-damage of the target's output file, PutBytes or chunking reader) is drawn by rapid; a fault-free dry run " +
+	Rule: "a scenario shape (0-3 prior Puts, target id/content, optional pre-damage of the target's output file (same size / shorter / longer / shorter with wrong bytes) or an output that was trimmed away while index entries still name it, PutBytes or a chunking ReadSeeker with Len, optionally a healthy companion process storing the same content) is drawn by rapid; a fault-free dry run " +
 		"counts the N file operations and M reader calls of the target Put; then one fault is injected (operation k fails / writes short and fails / process halts before / after / in the middle of it; " +
 		"or the reader fails to seek, fails mid-read, ends early, flips a byte in one pass, grows in one pass, returns data with EOF), or - thorough, a tenth of the shapes - the whole " +
 		"(operation x action) and reader fault space of the shape is executed to completion; every attempt starts from the same rewound disk state; thorough adds a concurrent reader process; " +
